@@ -56,6 +56,7 @@ class Frame:
         self.events = []
         self.locals = {}
         self.touched = set()
+        self.dguards = []
 
 
 class Stats:
@@ -179,12 +180,13 @@ class Explorer:
                 fr.model = None
 
     def assume(self, formula):
-        """Restrict the path; abort it if the restriction is infeasible."""
+        """Restrict the path; abort it if the restriction is infeasible.  Recorded as a decision
+        with a single option so that merged summaries know the region they cover."""
         if formula is True:
             return
-        if not self.feasible(formula):
+        if formula is False:
             raise PathAbort("assume")
-        self.add(formula)
+        self.decide([formula])
 
     def feasible(self, g):
         if g is True:
@@ -219,11 +221,15 @@ class Explorer:
             fr.pos += 1
             if idx >= n:
                 raise InternalError("replay divergence: %d options, trace wants %d" % (n, idx))
+            fr.dguards.append(guards[idx])
             self.add(guards[idx])
             return idx
         feas = []
+        first_model = None
         for i, g in enumerate(guards):
             if self.feasible(g):
+                if not feas:
+                    first_model = fr.model
                 feas.append(i)
         if not feas:
             raise PathAbort()
@@ -232,9 +238,8 @@ class Explorer:
         idx = feas[0]
         fr.trace.append(idx)
         fr.pos += 1
-        # the model cached by `feasible` may belong to a later alternative
-        if len(feas) > 1:
-            fr.model = None
+        fr.model = first_model
+        fr.dguards.append(guards[idx])
         self.add(guards[idx])
         return idx
 
@@ -308,6 +313,8 @@ class Explorer:
         else:
             raise PathAbort("budget")
         new = yes if took else no
+        if yes and no:
+            fr.dguards.append(node.tag_in(new))
         if new != cur:
             fr.allowed[node.uid] = new
             self.add(node.tag_in(new))
